@@ -723,7 +723,7 @@ protected:
                 {
                     outputNewline();
                 }
-                else if(m_charPredicate.isCharRefForbidden(theChar))
+                else if(m_charPredicate.isForbidden(theChar))
                 {
                      throwInvalidXMLCharacterException(
                             theChar,
@@ -733,15 +733,18 @@ protected:
                 else if (XalanUnicode::charCR == theChar ||
                          (XMLVersion == XML_VERSION_1_1 &&
                           (XalanUnicode::charNEL == theChar ||
-                           XalanUnicode::charLSEP == theChar)))
+                           XalanUnicode::charLSEP == theChar ||
+                           m_charPredicate.isCharRefForbidden(theChar))))
                 {
-                    // A parser turns these characters into a line feed
-                    // wherever they appear literally, so they have to be
-                    // written as character references, which are not
-                    // recognized inside a CDATA section.  Leave the
-                    // section, as is done for characters the encoding
-                    // cannot represent.  The writer opens a new section
-                    // when the next ordinary character is written.
+                    // A parser turns CR (NEL, LSEP) into a line feed
+                    // wherever it appears literally, and the XML 1.1
+                    // control characters are not allowed literally at
+                    // all, so they have to be written as character
+                    // references, which are not recognized inside a
+                    // CDATA section.  Leave the section, as is done for
+                    // characters the encoding cannot represent.  The
+                    // writer opens a new section when the next ordinary
+                    // character is written.
                     if (outsideCDATA == false)
                     {
                         m_writer.write(
